@@ -206,6 +206,8 @@ class SimWorld(object):
                         traceback.extract_stack())
                 raise SimBlocked()
 
+        k.sleep_fn = v_sleep
+
         def v_waitpid(pid, options):
             return k.waitpid(pid, options)
 
